@@ -123,6 +123,8 @@ let run_t () =
     Buffer.add_string b (" st=" ^ (if st_ok then "ok" else "model-static-type"));
     (* copies of stream objects are copies of values in the functional model *)
     Buffer.add_string b " cp=ok";
+    (* a moved-from / reset array is the empty array: count 0; copies and self-assignments are the same value *)
+    Buffer.add_string b (" mv=" ^ (if encode (VArr (zi 1, Z0, [])) = le_bytes (nat_of_int 8) Z0 then "ok" else "model"));
     Buffer.contents b
 
 let run_r () =
@@ -211,6 +213,8 @@ let run_l () =
 (* H <op>... : readers and a writer interleaved over one shared buffer (see harness runH) *)
 let run_h () =
   let st = ref h_init in
+  let msgs = ref [] in
+  let xdo op = let (x', _) = x_step { x_h = !st; x_msgs = !msgs } op in st := x'.x_h; msgs := x'.x_msgs in
   let outs = ref [] in
   let cur k = sz (List.nth !st.h_curs k) in
   while !toks <> [] do
@@ -222,6 +226,19 @@ let run_h () =
       | ["wn"; n] ->
         let (st', out) = h_step !st (HWrite (None, zs n)) in st := st';
         (match out with HOk -> "ok|" ^ string_of_int (List.length st'.h_buf) | _ -> "oob")
+      | ["hand"] | ["handa"] ->
+        xdo XHandoff;
+        let j = List.length !msgs - 1 in
+        "msg=" ^ string_of_int j ^ ":" ^ string_of_int (List.length (List.nth !msgs j)) ^ "|" ^ string_of_int (List.length !st.h_buf)
+      | ["reset"] -> xdo XReset; "ok|" ^ string_of_int (List.length !st.h_buf)
+      | ["self"] -> xdo XSelfAssign; "ok|" ^ string_of_int (List.length !st.h_buf)
+      | ["chkm"; js] ->
+        let j = int_of_string js in
+        if j >= List.length !msgs then "bad" else
+          let m = List.nth !msgs j in
+          (match rd_read (reader_of m) true (len m) with
+           | ROk (bs, r') -> "msg:" ^ hex_of_bytes bs ^ (if rd_end r' then "" else "!notAtEnd")
+           | _ -> "msg:throw")
       | ["new"] ->
         let (st', out) = h_step !st HNew in st := st';
         (match out with HReader k -> "reader=" ^ string_of_int (int_of_nat k) | _ -> "?")
